@@ -75,6 +75,23 @@ def run(chk, build):
         pmeta.append(dict(info, variant=v))
     base.run_view(chk, "Vperm", "statement-test(model: permuted / duplicated samples)", pterms, pmeta, disagreements,
                   header="From J2M.Views Require Import Vinfer.")
+    # X-pyeq: the model of Python == on metadata (sorted, element-wise; order sensitive on same-key-set dicts) against the
+    # implementation on random pairs of raw types, their type twins and permutations
+    import os, re, subprocess
+    env = dict(os.environ, J2M_REPO=common.REPO, PYTHONPATH=common.REPO)
+    wd = os.path.join(chk.workdir, "pyeq")
+    os.makedirs(wd, exist_ok=True)
+    try:
+        p = subprocess.run([common.PY, os.path.join(common.VERIF, "tools", "validate_pyeq.py"), "--n", "1500" if tier == "quick" else "30000",
+                            "--seed", str(chk.seed + 1), "--keep", wd], capture_output=True, text=True, env=env, timeout=3000)
+        out, rc = (p.stdout + p.stderr).strip(), p.returncode
+    except subprocess.TimeoutExpired:
+        out, rc = "timeout", 124
+    m = re.search(r"OK\s+(\d+) pairs", out)
+    chk.views["X-pyeq"] = {"cases": int(m.group(1)) if m else 0, "disagreements": 0 if rc == 0 else 1, "errors": [] if rc == 0 else [out[-600:]]}
+    chk.evaluations += int(m.group(1)) if m else 0
+    if rc != 0:
+        disagreements.append({"view": "X-pyeq", "error": out[-1500:]})
     base.conclude(chk, proofs_ok, disagreements, oracle_failed)
 
 
